@@ -148,6 +148,7 @@ def new_executor(ctx, solver, models, inline, **kw):
     if not kw.get("allow_uf"):
         models = list(models) + M.make_combinators()
     ex = Executor(ctx.mir, solver, models, inline, enums=ctx.enums, **kw)
+    ex.structs = getattr(ctx, "structs", None)
     ex.enum_hook = M.component_enum_hook
     ex.flip_site = PLANT
     return ex
@@ -3397,6 +3398,7 @@ MEM_OPS = {
     "is_file": (["path"], False), "is_symlink": (["path"], False), "read_all": (["path"], False), "mode": (["path"], False),
     "readlink": (["path"], False), "readlink_abs": (["path"], False), "chmod": (["path", "mode"], False),
     "copy": (["path2", "path2"], False), "copy_b": (["path2", "path2"], False),
+    "chmod_b": (["path"], False), "chown_b": (["path"], False),
 }
 
 
@@ -3447,6 +3449,34 @@ def run_memfs_single(ctx, prop, ops, nmax, n2max, cwds=("/", "/a"), tag="mem_sin
                 else:
                     vals, cons, groups = mem_args(run.solver, tagx, kinds, la, la)
                 calls, copts = [(op, vals)], None
+                if base in ("chmod_b", "chown_b"):
+                    what, rec, fol = op.split("/")[1:]
+                    B_ = "Chmod" if base == "chmod_b" else "Chown"
+                    calls, copts = [(base, vals)], dict(kind=base, what=what, recursive=rec == "1", follow=fol == "1")
+                    nvals = {"all": 1, "dirs": 1, "files": 1, "both": 2, "ro": 0, "sec": 0, "owner": 2, "uid": 1, "gid": 1}[what]
+                    syms = []
+                    for k in range(nvals):
+                        nm = "%s_v%d" % (tagx, k)
+                        run.solver.declare(nm, "(_ BitVec 32)")
+                        if base == "chmod_b":
+                            cons = cons + ["(bvule %s #x000001ff)" % nm]
+                        syms.append(BV(32, False, nm))
+                        groups = dict(groups, **{"val%d" % k: [syms[-1]]})
+                    copts["vals"] = syms
+                    if what == "both":
+                        calls.append(("@@Chmod::dirs", [len(calls) - 1, syms[0]]))
+                        calls.append(("@@Chmod::files", [len(calls) - 1, syms[1]]))
+                    elif what == "ro":
+                        calls.append(("@@Chmod::readonly", [len(calls) - 1]))
+                    elif what == "sec":
+                        calls.append(("@@Chmod::secure", [len(calls) - 1]))
+                    else:
+                        calls.append(("@@%s::%s" % (B_, what), [len(calls) - 1] + syms))
+                    if rec == "0":
+                        calls.append(("@@Chmod::no_recurse", [len(calls) - 1]) if base == "chmod_b" else ("@@Chown::recurse", [len(calls) - 1, B(False)]))
+                    if fol == "1":
+                        calls.append(("@@%s::follow" % B_, [len(calls) - 1]))
+                    calls.append(("@@%s::exec&" % B_, [len(calls) - 1]))
                 if base == "copy_b":
                     sel, fol = op.split("/")[1:]
                     calls, copts = [("copy_b", vals)], dict(sel=sel, follow=fol == "1", mode=None)
@@ -3477,10 +3507,10 @@ def run_memfs_single(ctx, prop, ops, nmax, n2max, cwds=("/", "/a"), tag="mem_sin
                         ob.prove(ex, st, desc + " (after %s, cwd %s)" % (op, cwd), f, cf) or ob.failures[-1].update(op=op, cwd=cwd, where="Memfs::" + op)
                     rv = last[1]
                     failed = isinstance(rv, Adt) and rv.ty == "Result" and rv.variant == 1
-                    rop = "copy" if base == "copy_b" else op
+                    rop = "copy" if base == "copy_b" else base[:-2] if base in ("chmod_b", "chown_b") else op
                     if rop in REF_OPS:
                         # C01, first sentence, for one call: result and resulting tree equal the reference filesystem
-                        op = rop if base != "copy_b" else op
+                        op = rop if base not in ("copy_b", "chmod_b", "chown_b") else op
                         pa = abs_oracle(ex, st, groups["arg0"], T_(cwd), run.tenv)
                         pb = None
                         if rop in ("symlink", "move_p", "copy") and pa[0] == "ok":
@@ -3507,6 +3537,8 @@ def run_memfs_single(ctx, prop, ops, nmax, n2max, cwds=("/", "/a"), tag="mem_sin
                                         for k, n in enumerate(ref["nodes"]):
                                             g2["_k%d" % k] = n["key"]
                                             g2["_m%d" % k] = [n["mode"]]
+                                            g2["_u%d" % k] = [n["uid"]]
+                                            g2["_g%d" % k] = [n["gid"]]
                                             if n["kind"] == "f":
                                                 g2["_c%d" % k] = n["content"]
                                             if n["kind"] == "l":
@@ -3520,15 +3552,19 @@ def run_memfs_single(ctx, prop, ops, nmax, n2max, cwds=("/", "/a"), tag="mem_sin
                                             if m["_k%d" % k] == "/":
                                                 continue
                                             kind = "dir" if n["kind"] == "d" else "fileSome(%s)" % rs_debug(m["_c%d" % k]) if n["kind"] == "f" else "link->Some(%s)" % rs_debug(m["_a%d" % k])
-                                            lines.append((m["_k%d" % k], "%s %s %o Some((1000, 1000))" % (rs_debug(m["_k%d" % k]), kind, ord(m["_m%d" % k]))))
+                                            lines.append((m["_k%d" % k], "%s %s %o Some((%d, %d))" % (rs_debug(m["_k%d" % k]), kind, ord(m["_m%d" % k]),
+                                                                                                        ord(m["_u%d" % k]), ord(m["_g%d" % k]))))
                                         out_ = {k: v for k, v in m.items() if not k.startswith("_")}
-                                        if "mode" in out_:
-                                            out_["mode"] = ord(out_["mode"])
+                                        for kk in ("mode", "val0", "val1"):
+                                            if kk in out_:
+                                                out_[kk] = ord(out_[kk])
                                         out_["expect_dump"] = "".join(l + "\n" for _, l in sorted(lines)) + "cwd=Some(%s)" % rs_debug(m["_cwd"])
                                         return out_
                                     label, formula = "", ref_matches(ex, st, ref, after)
                                     if copts and ref.get("followed_link"):
                                         label = " [copy following a link inside the source tree]"
+                                    for lb in sorted(set(ref.get("labels", []))):
+                                        label += " " + lb
                                     if copts and copts.get("mode") is not None and ref.get("mode_matters"):
                                         from .mirsym.values import bv_bin as _bvb
                                         zero = _bvb("Eq", copts["mode"], BV(32, False, 0))
@@ -3780,7 +3816,7 @@ impl RefFs {
 '''
 
 
-REF_OPS = ("mkfile", "mkdir_p", "write_all", "append_all", "remove", "remove_all", "set_cwd", "symlink", "move_p", "copy")
+REF_OPS = ("mkfile", "mkdir_p", "write_all", "append_all", "remove", "remove_all", "set_cwd", "symlink", "move_p", "copy", "chmod", "chown")
 
 
 def mem_replay_src(f):
@@ -3798,6 +3834,18 @@ def mem_replay_src(f):
     tree = f.get("tree") or TREE1
     fixture_call = "fixture()" if tree is TREE1 else "fixture3()"
     refcheck = ""
+    if op.startswith(("chmod_b/", "chown_b/")):
+        base, what, rec, fol = op.split("/")
+        iv = lambda k: (lambda x: ord(x) if isinstance(x, str) and len(x) == 1 else int(x or 0))(a.get("val%d" % k, 0))
+        if base == "chmod_b":
+            sel = {"all": ".all(0o%o)" % iv(0), "dirs": ".dirs(0o%o)" % iv(0), "files": ".files(0o%o)" % iv(0), "both": ".dirs(0o%o).files(0o%o)" % (iv(0), iv(1)),
+                   "ro": ".readonly()", "sec": ".secure()"}[what]
+            chain = sel + (".no_recurse()" if rec == "0" else "") + (".follow()" if fol == "1" else "")
+        else:
+            sel = {"owner": ".owner(%d, %d)" % (iv(0), iv(1)), "uid": ".uid(%d)" % iv(0), "gid": ".gid(%d)" % iv(0)}[what]
+            chain = sel + (".recurse(false)" if rec == "0" else "") + (".follow()" if fol == "1" else "")
+        call = "v.%s(%s).and_then(|c| c%s.exec())" % (base, rs_str(a["arg0"]), chain)
+        op = base
     if op.startswith("copy_b/"):
         sel, fol = op.split("/")[1:]
         mo = a.get("mode", 0)
@@ -3877,6 +3925,25 @@ def _mk_c09(name, ops, n2, tier, cwds=("/", "/a")):
     def f(ctx, prop):
         return run_memfs_single(ctx, prop, ops, n2, n2, cwds=cwds, tag=name, tree=TREE3, pfx="C09")
     return f
+
+
+def _mk_c11t(name, ops, n, tier, cwds=("/", "/a")):
+    @job(name, ["C11", "C12"], tier, functions=["Memfs::{chmod_b,chown_b,_chmod,_chown}, Chmod::{all,dirs,files,readonly,secure,no_recurse,follow,exec}, Chown::{owner,uid,gid,recurse,follow,exec}, "
+                                                "sys::mode, revoking_mode, MemfsEntry::{set_mode,set_owner} and the Entries traversal (contents_first, dirs_first, pre_op closure) they drive (real MIR)"],
+         bounds="one builder chain from the tree {/, /a (dir, 0750), /a/a -> /b (link), /a/b (file 'x', 0600), /b (file 'yz')} with cwd %s: every path text of 1..=%d chars over {'/','a','b','.'}; "
+                "programs %s (chmod values any u32 <= 0o777, chown ids any u32)" % (" and ".join("'%s'" % c for c in cwds), n, ops))
+    def f(ctx, prop):
+        return run_memfs_single(ctx, prop, ops, n, n, cwds=cwds, tag=name, tree=TREE3, pfx="C11")
+    return f
+
+
+_mk_c11t("c11_tree_chmod_all", ["chmod_b/all/1/0", "chmod_b/all/0/0"], 2, "quick")
+_mk_c11t("c11_tree_chmod_sel", ["chmod_b/dirs/1/0", "chmod_b/files/1/0", "chmod_b/both/1/0"], 2, "quick")
+_mk_c11t("c11_tree_chmod_follow", ["chmod_b/all/1/1", "chmod_b/files/0/1"], 2, "quick")
+_mk_c11t("c11_tree_chmod_sym", ["chmod_b/ro/1/0", "chmod_b/sec/1/0", "chmod_b/sec/1/1"], 2, "quick")
+_mk_c11t("c11_tree_chown", ["chown_b/owner/1/0", "chown_b/uid/0/0", "chown_b/gid/1/1", "chown_b/owner/0/1"], 2, "quick")
+_mk_c11t("c11_tree_chmod3", ["chmod_b/all/1/0", "chmod_b/both/1/1", "chmod_b/sec/0/0"], 3, "thorough", cwds=("/a",))
+_mk_c11t("c11_tree_chown3", ["chown_b/owner/1/1", "chown_b/uid/1/0"], 3, "thorough", cwds=("/a",))
 
 
 _mk_c09("c09_copy_plain", ["copy_b/none/0"], 2, "quick")
@@ -4769,6 +4836,59 @@ def ref_apply(ex, st, ref, op, paths, data, opts=None):
         ref["nodes"].append(dict(key=list(p), kind="l", content=None, alt=list(paths[1]), tkind=(t["kind"] if t else None),
                                  mode=BV(32, False, 0o120777), uid=BV(32, False, 1000), gid=BV(32, False, 1000)))
         return ("ok", p)
+    if op in ("chmod", "chown"):
+        from .mirsym.values import bv_bin as _bvb
+        o = opts
+        if node is None:
+            return ("err", None)
+        tp = TP.tokenize(ex, st, p)
+        under = lambda n: (lambda tn: len(tn) >= len(tp) and all(ex.decide(st, TP.tcomp_eq(a[0], b[0])) for a, b in zip(tp, tn)))(TP.tokenize(ex, st, n["key"]))
+        visited = [n for n in ref["nodes"] if (under(n) if o["recursive"] else n is node)]
+        targets = []
+        for n in visited:
+            if n["kind"] == "l":
+                if o["follow"]:
+                    t = ref_find(ex, st, ref, n["alt"])
+                    if t is None or t["kind"] == "d":
+                        return ("skip", None)  # followed link to a directory / dangling link: outside the reference
+                    targets.append(t)
+                    if op == "chmod" and o["what"] in ("ro", "sec"):
+                        ref.setdefault("labels", []).append("[symbolic chmod through a followed link]")
+                elif op == "chown":
+                    targets.append(n)  # without follow chown acts on the link itself
+            else:
+                targets.append(n)
+        ite = lambda c, a, b: BV(32, False, "(ite %s %s %s)" % (c.smt(), a.smt(), b.smt()))
+        done = []
+        for n in targets:
+            if any(n is d for d in done):
+                continue
+            done.append(n)
+            if op == "chown":
+                if o["what"] in ("owner", "uid"):
+                    n["uid"] = o["vals"][0]
+                if o["what"] == "owner":
+                    n["gid"] = o["vals"][1]
+                if o["what"] == "gid":
+                    n["gid"] = o["vals"][0]
+                continue
+            tb = BV(32, False, 0o40000 if n["kind"] == "d" else 0o100000)
+            perm = _bvb("BitAnd", n["mode"], BV(32, False, 0o7777))
+            if o["what"] in ("all", "dirs", "files", "both"):
+                m = None
+                if n["kind"] == "d" and o["what"] in ("all", "dirs", "both"):
+                    m = o["vals"][0]
+                if n["kind"] == "f" and o["what"] in ("all", "files", "both"):
+                    m = o["vals"][1] if o["what"] == "both" else o["vals"][0]
+                if m is not None:
+                    # an octal value of 0 means "not given": the entry keeps its mode
+                    n["mode"] = ite(_bvb("Eq", m, BV(32, False, 0)), n["mode"], _bvb("BitOr", m, tb))
+            elif o["what"] == "ro":
+                if n["kind"] == "f":
+                    n["mode"] = _bvb("BitOr", tb, _bvb("BitAnd", _bvb("BitOr", perm, BV(32, False, 0o444)), BV(32, False, 0o7777 & ~0o333)))
+            elif o["what"] == "sec":
+                n["mode"] = _bvb("BitOr", tb, _bvb("BitAnd", perm, BV(32, False, 0o7777 & ~0o077)))
+        return ("ok", None)
     if op == "copy":
         src, dst = p, paths[1]
         if ex.decide(st, TP.path_eq_text(ex, st, src, dst)):
@@ -5114,7 +5234,8 @@ def c08_expected(ex, st, flat, filt, sort, contents_first, emin, emax, follow=Fa
             return ks
         if sort == "name":
             return sort_names(ks)
-        d, f = sort_names([k for k in ks if k["kind"] == "d"]), sort_names([k for k in ks if k["kind"] != "d"])
+        isd = lambda k: k["kind"] == "d" or (k["kind"] == "l" and k.get("tkind") == "d")  # Entry::is_dir: a link to a directory counts
+        d, f = sort_names([k for k in ks if isd(k)]), sort_names([k for k in ks if not isd(k)])
         return d + f if sort == "dirs_first" else f + d
 
     seq = []
